@@ -59,7 +59,7 @@ func (g *G) setOpOrSelect(sub bool) ([]Tok, ast.Statement) {
 	// sequence of UNION / EXCEPT over terms, each term a left-associative INTERSECT chain. Without
 	// Features.IntersectPrecedence an INTERSECT is only drawn while no UNION / EXCEPT has been,
 	// where both readings give the same tree (the listed finding C03-intersect-precedence).
-	var cur ast.Statement       // the UNION / EXCEPT chain so far (nil while the first term is being built)
+	var cur ast.Statement          // the UNION / EXCEPT chain so far (nil while the first term is being built)
 	var term ast.Statement = first // the INTERSECT chain being built
 	var pendOp string
 	var pendAll bool
